@@ -233,6 +233,32 @@ impl<'a> Ctx<'a> {
     }
 }
 
+/// Rewrite some integers of the tree as bignums (tag 2 / tag 3 around the big-endian magnitude).
+fn bignumify(rng: &mut Rng, it: &mut Item, depth: usize) {
+    if depth > 64 {
+        return;
+    }
+    match &mut it.kind {
+        Kind::Array(a) => a.iter_mut().for_each(|x| bignumify(rng, x, depth + 1)),
+        Kind::Map(m) => m.iter_mut().for_each(|(k, v)| {
+            bignumify(rng, k, depth + 1);
+            bignumify(rng, v, depth + 1);
+        }),
+        Kind::Tag(_, b) => bignumify(rng, b, depth + 1),
+        Kind::UInt(v) if rng.chance(1, 2) => {
+            let bytes = v.to_be_bytes();
+            let skip = bytes.iter().take_while(|b| **b == 0).count().min(7);
+            *it = Item::tag(2, Item::bytes(&bytes[skip..]));
+        }
+        Kind::NInt(v) if rng.chance(1, 2) => {
+            let bytes = v.to_be_bytes();
+            let skip = bytes.iter().take_while(|b| **b == 0).count().min(7);
+            *it = Item::tag(3, Item::bytes(&bytes[skip..]));
+        }
+        _ => {}
+    }
+}
+
 /// Every point in 0..len when len <= limit; otherwise both ends, 256 evenly spaced points and the
 /// neighbourhood of 2^8, 2^16 (places where length heads change width).
 fn sample_points(len: usize, limit: usize) -> Vec<usize> {
@@ -373,7 +399,12 @@ impl Engine for C13 {
         // a quarter of the (small) messages travel in a non-canonical but valid encoding: wide heads,
         // indefinite-length strings / arrays / maps (a relay that re-serialises)
         if t.meta("size").is_none() && rng.chance(1, 4) {
-            if let Ok(item) = refcbor::read_exact(&msg) {
+            if let Ok(mut item) = refcbor::read_exact(&msg) {
+                // a third of these also carry some integers as bignums (tag 2 / 3 around a byte
+                // string), which the CBOR layer folds back into plain integers
+                if rng.chance(1, 3) {
+                    bignumify(&mut rng, &mut item, 0);
+                }
                 let mut out = Vec::new();
                 let widen = rng.range(0, 6) as u32;
                 let indef = rng.range(1, 8) as u32;
@@ -465,6 +496,27 @@ impl Engine for C13 {
                 for (_what, v) in d.variants() {
                     enc_subjects.push((*ep, v));
                 }
+            }
+        }
+        // values assembled in memory (never decoded): three seeded ones of the run's type, the
+        // default value, and hand-modified copies of each
+        if let Some(own) = untagged_of(&ty) {
+            let mut vr = Rng::for_run(t.seed, t.run, "C13-built");
+            let mut built: Vec<Decoded> = Vec::new();
+            for _ in 0..3 {
+                if let Some(d) = gen_built(&mut vr, &ty, &GenCfg::small()) {
+                    built.push(d);
+                }
+            }
+            if let Some(d) = default_built(&ty) {
+                built.push(d);
+            }
+            for d in built {
+                for (_w, v) in d.variants() {
+                    enc_subjects.push((own, v));
+                }
+                cx.st.inc("built-values-encoded");
+                enc_subjects.push((own, d));
             }
         }
         for (ep, d) in &enc_subjects {
